@@ -27,3 +27,46 @@ Theorem C03_replicas_converge :
   = st St Df (run St Df apply unapply (init St Df s0) es).
 Proof. exact replicas_converge. Qed.
 Print Assumptions C03_replicas_converge.
+
+(* The queue as the code has it: every flush EMPTIES it, batches travel separately and may be
+   delivered late (in order). Whenever nothing is queued or in flight the replica equals the
+   primary — at every such point of the schedule, not only at the end of the history. *)
+From IronCalc Require Import UserModel.Flush UserModel.FlushProofs.
+
+Theorem C03_converged_when_quiescent :
+  forall (St Df : Type) (apply unapply : Df -> St -> St) s0 fs,
+  fvalid St Df apply unapply (finit St Df s0) fs ->
+  quiescent St Df (frun St Df apply unapply (finit St Df s0) fs) ->
+  repl St Df (frun St Df apply unapply (finit St Df s0) fs)
+  = st St Df (prim St Df (frun St Df apply unapply (finit St Df s0) fs)).
+Proof. exact converged_when_quiescent. Qed.
+Print Assumptions C03_converged_when_quiescent.
+
+(* ... and a replica can always catch up: one flush and delivery of everything in flight
+   brings it to exactly the state the primary had, whatever happened before. *)
+Theorem C03_replica_catches_up :
+  forall (St Df : Type) (apply unapply : Df -> St -> St) s0 fs,
+  fvalid St Df apply unapply (finit St Df s0) fs ->
+  let s := frun St Df apply unapply (finit St Df s0) fs in
+  repl St Df (frun St Df apply unapply s (drain St Df s)) = st St Df (prim St Df s).
+Proof. exact replica_catches_up. Qed.
+Print Assumptions C03_replica_catches_up.
+
+(* the replica is never more than "what is on its way" behind: the invariant itself *)
+Theorem C03_sync_invariant :
+  forall (St Df : Type) (apply unapply : Df -> St -> St) fs s,
+  Sync St Df apply unapply s -> fvalid St Df apply unapply s fs ->
+  Sync St Df apply unapply (frun St Df apply unapply s fs).
+Proof. exact sync_run. Qed.
+Print Assumptions C03_sync_invariant.
+
+(* non-vacuity: a schedule with an undo, two flushes and a late delivery is valid, ends
+   quiescent, and the replica has moved (state 1 after Do 1, Do 2, Undo) *)
+From Coq Require Import ZArith.
+From IronCalc Require Import UserModel.HistoryId.
+Example C03_flush_schedule_nonvacuous :
+  let fs := [Ev (Do 1%Z [(0, 1)%Z]); Flush; Ev (Do 2%Z [(1, 2)%Z]); Ev Undo; Deliver; Flush; Deliver] in
+  fvalid Z idiff id_apply id_unapply (finit Z idiff 0%Z) fs /\
+  quiescent Z idiff (frun Z idiff id_apply id_unapply (finit Z idiff 0%Z) fs) /\
+  repl Z idiff (frun Z idiff id_apply id_unapply (finit Z idiff 0%Z) fs) = 1%Z.
+Proof. vm_compute. repeat split. Qed.
